@@ -866,6 +866,9 @@ func mutatedRun(c *run.Ctx, r *kit.Rng, s *kit.Summary, cn string, n int) {
 			s.Diverge(cn+"-mutated", ops[i], impl[i], outs[i])
 		} else {
 			s.Count(cn + "-mutated:accept/reject-differs")
+			if os.Getenv("C07_DEBUG_MUTATED") != "" {
+				fmt.Fprintf(os.Stderr, "MUT %s\n  op    %s\n  real  %s\n  model %s\n", cn, ops[i], impl[i], outs[i])
+			}
 		}
 	}
 }
